@@ -707,6 +707,9 @@ func (r *run) checkTeardown(m *Model) {
 		t := h.LeftAfterClients[0]
 		r.viol("C16", "goroutines-exit", "C16/leftover-after-clients-gone/"+siteOf(t.Name)+"/"+t.Wait, "every client connection has ended and the broker is quiescent, but %d library goroutine(s) remain: %s; held locks: %v", len(h.LeftAfterClients), simrt.FormatTasks(h.LeftAfterClients), h.HeldAtEnd)
 	}
+	if h.ServerCloseCall > 0 && h.ServerClosed && !h.ServerClosedAtQ {
+		r.viol("C16", "server-close-returns", "C16/server-close-waits-for-stalled-peer", "Server.Close had not returned when the broker became quiescent (it returned only after the stalled readers were resumed): Close ends every connection itself, a peer that has stopped reading must not hold it up; tasks at that point: %s", h.CloseStuck)
+	}
 	if h.ServerCloseCall > 0 && !h.ServerClosed {
 		r.viol("C16", "server-close-returns", "C16/server-close-hangs", "Server.Close did not return; tasks: %s; held locks: %v", simrt.FormatTasks(h.LeftAtEnd), h.HeldAtEnd)
 	} else if len(h.LeftAtEnd) > 0 {
@@ -1061,7 +1064,7 @@ func (r *run) checkReceiver(m *Model) {
 	byKey := map[string][]*Pub{}
 	var keys []string
 	for _, p := range m.Pubs {
-		if p.Will || p.Retain {
+		if p.Retain && !p.Will {
 			continue
 		}
 		if _, ok := byKey[p.Key]; !ok {
@@ -1127,7 +1130,18 @@ func (r *run) checkReceiver(m *Model) {
 					copies = append(copies, d)
 				}
 			}
+			if pubs[0].Will && pubs[0].Retain {
+				continue // (retained wills: live copies are judged, see C08 for the stored one)
+			}
 			who := subscriberName(sk.c, sk.cb)
+			if pubs[0].Will {
+				// several connections of one client may carry the same will
+				// (byte-identical CONNECT): one copy per abnormal end
+				if len(pubs) > 1 && (len(copies) > may || len(copies) < must) {
+					r.viol("C09", "will-exactly-once-per-end", fmt.Sprintf("C09/will-count/got%d-want%d", len(copies), must), "%s received %d copies of will %s (topic %q) but %d connection(s) carrying it ended without DISCONNECT (possible: %d): %s", who, len(copies), key, topic, must, may, fmtPubs(pubs))
+				}
+				continue
+			}
 			if len(copies) > may {
 				r.viol("C02", "handed-on-once", "C02/handed-on-too-often"+qosTag(pubs), "%s received %d copies of application message %s (topic %q) but the sender's packets allow at most %d hand-overs: %s", who, len(copies), key, topic, may, fmtPubs(pubs))
 			}
@@ -1525,6 +1539,23 @@ func (r *run) checkKeepAlive(m *Model) {
 			}
 			if next-t > limit {
 				// silent for more than 2K+1 s and the connection was still there
+				if r.sc.Profile == "teardown" {
+					// C16: keep-alive expiry is an end cause the broker must act
+					// on even when the silent peer's own outgoing ring is full.
+					// Judged only for connections that never published: a
+					// publisher whose incoming ring is full behind a stalled
+					// third party is legitimately not being read.
+					pub := false
+					for _, w := range c.Up {
+						if w.P.Type == refmqtt.PUBLISH {
+							pub = true
+						}
+					}
+					if !pub {
+						r.viol("C16", "keepalive-end-cause", "C16/keepalive-expiry-not-acted-on", "connection %d (keep-alive %d s, a pure subscriber) sent nothing from %.3fs to %.3fs and the broker had not closed it by then", c.Idx, k, float64(t)/1e9, float64(next)/1e9)
+					}
+					break
+				}
 				r.viol("C19", "silent-client-dropped", "C19/not-dropped", "connection %d (keep-alive %d s) sent nothing from %.3fs to %.3fs (%.1f s of silence) and the broker had not closed it by then", c.Idx, k, float64(t)/1e9, float64(next)/1e9, float64(next-t)/1e9)
 				break
 			}
